@@ -3,7 +3,7 @@
 import json, os, re, sys
 log = {}
 for l in open(sys.argv[1]):
-    m = re.match(r"(C\d\d b?)\s*:", l.replace("b:", "b :")) if False else re.match(r"(C\d\db?): (.*)", l)
+    m = re.match(r"(C\d\d b?)\s*:", l.replace("b:", "b :")) if False else re.match(r"(C\d\d[a-z]?): (.*)", l)
     if m:
         log[m.group(1)] = m.group(2)
 print("| seed | idea of the change (what it needs to manifest) | result of `./check <prop> quick` |")
